@@ -3,6 +3,7 @@ pub mod common;
 pub mod dynops;
 pub mod harness;
 pub mod model;
+pub mod range;
 pub mod refs;
 pub mod rng;
 pub mod store;
@@ -25,6 +26,8 @@ fn usage() -> ! {
 fn runs_for(prop: &str, thorough: bool) -> u64 {
     let (q, t) = match prop {
         "C01" => (60_000, 1_500_000),
+        "C02" => (60_000, 1_500_000),
+        "C11" => (60_000, 1_500_000),
         "C04" => (60_000, 1_500_000),
         "C06" => (60_000, 1_500_000),
         "C07" => (40_000, 1_000_000),
